@@ -346,16 +346,19 @@ class E1Run:
         base = ["network", "node", hn]
         kind = r.choice(["create_burst", "delete_burst", "access_burst", "login_burst", "exec_burst"])
         ops: List[List] = []
+        named = [f for f in node.file_system.folders.values() if not _ID_RE.search(f.name)]  # concrete ops never carry opaque ids
+        if not named:
+            return []
         if kind == "create_burst":
-            folder = r.choice(sorted(f.name for f in node.file_system.folders.values()))
+            folder = r.choice(sorted(f.name for f in named))
             for k in range(r.randint(4, 7)):
                 ops.append(["req", base + ["file_system", "create", "file", folder, f"burst_{self.op_index}_{k}.txt", False], "push_create"])
         elif kind == "delete_burst":
-            for folder in node.file_system.folders.values():
+            for folder in named:
                 for f in sorted(x.name for x in folder.files.values())[:6]:
                     ops.append(["req", base + ["file_system", "delete", "file", folder.name, f], "push_delete"])
         elif kind == "access_burst":
-            for folder in node.file_system.folders.values():
+            for folder in named:
                 for f in sorted(x.name for x in folder.files.values())[:2]:
                     for _ in range(r.randint(3, 12)):
                         ops.append(["req", base + ["file_system", "access", folder.name, f], "push_access"])
@@ -447,6 +450,13 @@ class E1Run:
             import sys
 
             sys.setrecursionlimit(1000 + 300 * sum(1 for m in self.monitors if m._patches))
+            if a.get("pre_b"):
+                # a second instance that lives and dies BEFORE this environment is constructed (C04b)
+                self.env_b = None
+                self.do_b(["b_new", a["pre_b"]["scenario"]])
+                for op in a["pre_b"].get("ops", []):
+                    self.do_b(op)
+                self.do_b(["b_close"])
             try:
                 self.build_env()
             except Violation:
